@@ -359,6 +359,47 @@ def real_writers_rp66_lis(ctx, rng, traces, parsed_l, ok_l, meta):
         os.remove(pin)
 
 
+REPO_TESTS = ['tests/unit/test_util/TestXmlWrite.py', 'tests/unit/test_util/TestHtmlUtils.py', 'tests/unit/test_util/test_plot/TestSVGWriter.py',
+              'tests/unit/common/test_ToHTML.py', 'tests/unit/test_util/test_plot/TestTrack.py']
+
+
+def repo_tests_as_traces(ctx, traces, parsed_l, ok_l, meta, nodoc_l):
+    """The repository's own tests of the XML / XHTML / SVG writers are run in this process under the call recorder: every
+    XmlStream they create is one more trace (call stream + document when it is written to memory).  Their assertions are
+    weaker than the specification; their executions are not."""
+    import pytest
+    root = repo.REPO if os.path.isdir(os.path.join(repo.REPO, 'tests')) else '/repo'
+    files = [os.path.join(root, t) for t in REPO_TESTS if os.path.exists(os.path.join(root, t))]
+    if not files:
+        ctx.vacuity.append('none of the repository test files of the XML writers was found')
+        return
+    with xmltrace.record_xml_streams() as recs:
+        with open(os.devnull, 'w') as devnull:
+            import contextlib
+            with contextlib.redirect_stdout(devnull), contextlib.redirect_stderr(devnull):
+                rc = pytest.main(['-q', '-p', 'no:cacheprovider', '-x', '--no-header', '-W', 'ignore', '--rootdir', root] + files)
+    ctx.notes['repo_tests_exit_code'] = int(rc)
+    n = 0
+    for r_ in recs:
+        if not r_.ev:
+            continue
+        n += 1
+        # a stream that never opens an element is not a document (a unit test of the prologue only)
+        complete = (not r_.aborted) and r_.doc is not None and r_.ev[-1].get('op') == 'exit' and any(e.get('op') == 'start' for e in r_.ev)
+        ok, err, pev = (False, 'no document', [])
+        if complete:
+            doc = known_f7(ctx, r_.doc, dict(source='repository test'))
+            ok, err, pev = xmltrace.parse_events(doc)
+        traces.append(r_.ev)
+        parsed_l.append(pev)
+        ok_l.append(ok)
+        nodoc_l.append(not complete)
+        meta.append(dict(writer='repository test suite (%s)' % ', '.join(os.path.basename(f) for f in files), calls=r_.calls, parse_error=err,
+                         complete=complete, aborted=r_.aborted))
+        ctx.case(('repo-test-stream', n), complete)
+    ctx.notes['repo_test_streams'] = n
+
+
 def run(ctx):
     repo.setup()
     from ..core import quiet_logging
@@ -523,9 +564,11 @@ def run(ctx):
         os.remove(pin)
         os.remove(pout)
     real_writers_rp66_lis(ctx, rng, traces, parsed_l, ok_l, meta)
+    nodoc_l = [False] * len(traces)
+    repo_tests_as_traces(ctx, traces, parsed_l, ok_l, meta, nodoc_l)
     if traces:
         ctx.sample(dict(kind='real writer call stream', meta=meta[0], events=traces[0][:12]))
-        rej = ctx.validate_traces('XmlStreamTrace', 'XmlStreamTrace', traces, payload_extra=dict(parsed=parsed_l, ok=ok_l),
+        rej = ctx.validate_traces('XmlStreamTrace', 'XmlStreamTrace', traces, payload_extra=dict(parsed=parsed_l, ok=ok_l, nodoc=nodoc_l),
                                   workers=16)
         for t, l, st in rej:
             ev = traces[t][l - 1] if l and l <= len(traces[t]) else None
